@@ -465,3 +465,441 @@ def alpha_normalise(obj):
             return {k: go(v) for k, v in sorted(x.items())}
         return x
     return go(obj)
+
+
+# --------------------------------------------------------------------------------------------- structured generators
+#
+# Random type-directed expressions rarely contain two equal factors, so the branches of the canonicaliser / of
+# Fraction.simplify that compare sub-expressions are almost never reached by `gen_expr`.  The generators below build
+# expressions from a COMMON POOL of factors: compound fractions whose cross-multiplication yields x/x, x/1, 1/x,
+# products that only appear after canonicalising a factor, factors that tie on the first child name, leaves whose
+# variables share a name across worlds, repeated factors, and Sums over (population-tagged, interventional) joint leaves
+# with every relation between the ranges and the children.
+
+def cfv(name, ivs=(), star="n"):
+    return ["v", name, star, "0", [list(i) for i in sorted(ivs, key=lambda p: (p[0], p[1] == "p"))]]
+
+
+def mk_leaf(children, parents=(), pop=None, ivs=()):
+    c = [cfv(x, ivs) if isinstance(x, int) else x for x in children]
+    p = [cfv(x, ivs) if isinstance(x, int) else x for x in parents]
+    return ["P", c, p] if pop is None else ["PP", plain(pop), c, p]
+
+
+def mk_prod(fs):
+    fs = list(fs)
+    if not fs:
+        return "one"
+    if len(fs) == 1:
+        return fs[0]
+    return ["prod"] + fs
+
+
+def factor_catalogue(rng: random.Random, n_names: int, flavour: str):
+    """a list of pairwise different factors (canonically different as well).
+    flavour 'samefirst': every factor has the same first child name (ties of the old sort key);
+    'mixed': leaves over different names, conditional / joint / interventional / population-tagged, a few sums;
+    'worlds': leaves whose variables share a name across worlds (NOT well-scoped: correspondence and C11 only)"""
+    names = list(range(n_names))
+    rng.shuffle(names)
+    a, b, c = names[0], names[1], names[2]
+    d = names[3] if n_names > 3 else None
+    if flavour == "samefirst":
+        # `a` must be the first child in canonical order whatever the ordering: single-child leaves only, or a is the
+        # smallest name among the children (name order == ordering level after _upgrade_ordering)
+        a = min(names[:3])
+        b, c = [n for n in names[:3] if n != a]
+        cat = [mk_leaf([a]), mk_leaf([a], [b]), mk_leaf([a], [c]), mk_leaf([a], [b, c]), mk_leaf([a, b]), mk_leaf([a, c]),
+               mk_leaf([a, b], [c]), mk_leaf([a], ivs=[[b, "m"]]), mk_leaf([a], ivs=[[c, "m"]]), mk_leaf([a], ivs=[[b, "p"]]),
+               mk_leaf([a], [b], ivs=[[c, "m"]]), mk_leaf([a], pop=POPS[0]), mk_leaf([a], pop=POPS[1]),
+               mk_leaf([a], [b], pop=POPS[0]), mk_leaf([cfv(a, star="m")]), mk_leaf([cfv(a, star="m")], [b]),
+               ["sum", [plain(b)], mk_leaf([a], [b])], ["sum", [plain(c)], mk_leaf([a], [c])],
+               ["sum", [plain(b)], mk_leaf([a], [b, c])], ["sum", [plain(b), plain(c)], mk_leaf([a], [b, c])],
+               ["sum", [plain(b)], mk_leaf([a], [b], pop=POPS[0])]]
+    elif flavour == "worlds":
+        cat = [mk_leaf([cfv(a, [[b, "m"]]), cfv(a, [[c, "m"]])]), mk_leaf([cfv(a, [[b, "m"]]), cfv(a)]),
+               mk_leaf([cfv(a, [[b, "p"]]), cfv(a, [[b, "m"]])]), mk_leaf([cfv(a, [[b, "m"]])], [cfv(a, [[c, "m"]])]),
+               mk_leaf([cfv(a, star="p"), cfv(a)]), mk_leaf([cfv(a, [[b, "m"]]), cfv(a, [[b, "m"], [c, "m"]])]),
+               mk_leaf([cfv(a, [[b, "m"]]), cfv(c, [[b, "m"]]), cfv(a, [[c, "m"]])]), mk_leaf([a]), mk_leaf([b], [a]),
+               mk_leaf([cfv(b, [[a, "m"]]), cfv(b, [[a, "p"]])], pop=POPS[0])]
+    else:
+        cat = [mk_leaf([a]), mk_leaf([b]), mk_leaf([c]), mk_leaf([a], [b]), mk_leaf([b], [a]), mk_leaf([b], [c]),
+               mk_leaf([a, b]), mk_leaf([b, c]), mk_leaf([a, b, c]), mk_leaf([a], [b, c]), mk_leaf([a, b], [c]),
+               mk_leaf([a], ivs=[[c, "m"]]), mk_leaf([b], [a], ivs=[[c, "m"]]), mk_leaf([a, b], ivs=[[c, "m"]]),
+               mk_leaf([a], pop=POPS[0]), mk_leaf([a, b], pop=POPS[0]), mk_leaf([b], [a], pop=POPS[1]),
+               mk_leaf([c], pop=POPS[1], ivs=[[a, "m"]]), mk_leaf([cfv(a, star="m"), b]),
+               ["sum", [plain(b)], mk_leaf([a], [b])], ["sum", [plain(a)], mk_prod([mk_leaf([a], [b]), mk_leaf([c], [a])])],
+               ["sum", [plain(c)], ["frac", mk_leaf([a, c]), mk_leaf([c], [b])]]]
+        if d is not None:
+            cat += [mk_leaf([d]), mk_leaf([d], [a]), mk_leaf([a, d], [b]), mk_leaf([c], ivs=[[d, "m"]]),
+                    mk_leaf([d], [c], pop=POPS[0])]
+    rng.shuffle(cat)
+    return cat
+
+
+def _leaf_all_names(t):
+    c, p = _leaf_parts(t)
+    out = set()
+    for v in list(c) + list(p):
+        out.add(int(v[1]))
+        out |= {int(i[0]) for i in v[4]}
+    return out
+
+
+def one_like(rng: random.Random, pool, n_names):
+    """an expression whose canonical form is One()"""
+    k = rng.randrange(7)
+    x = rng.choice(pool)
+    if k == 0:
+        return "one"
+    if k == 1:
+        n = rng.randrange(n_names)
+        return ["sum", [plain(n)], mk_leaf([n])]
+    if k == 2 and n_names >= 2:
+        n, m = rng.sample(range(n_names), 2)
+        return ["sum", [plain(n), plain(m)], mk_leaf([m, n], pop=rng.choice([None, POPS[0]]))]
+    if k == 3:
+        return ["frac", x, present_shuffle(rng, x)]
+    if k == 4:
+        y = rng.choice(pool)
+        return ["frac", ["prod", x, y], ["prod", y, x]]
+    if k == 5:
+        return ["prod", "one", "one"]
+    return ["frac", "one", "one"]
+
+
+def disguise(rng: random.Random, x, pool, n_names, p=0.5):
+    """an expression with the same canonical form as the factor `x` (a leaf or a sum)"""
+    if rng.random() > p:
+        return present_shuffle(rng, x)
+    k = rng.randrange(4)
+    if k == 0:
+        return ["frac", present_shuffle(rng, x), one_like(rng, pool, n_names)]
+    if k == 1:
+        fs = [present_shuffle(rng, x), one_like(rng, pool, n_names)]
+        rng.shuffle(fs)
+        return ["prod"] + fs
+    if k == 2 and isinstance(x, list) and x[0] in ("P", "PP") and not _leaf_parts(x)[1] and leaf_ok(x):
+        # marginalise a fresh variable out of a bigger joint: Sum[Z] P(C, Z) -> P(C)   (subset branch of Sum.simplify)
+        fresh = [n for n in range(n_names) if n not in _leaf_all_names(x)]
+        if fresh:
+            z = rng.choice(fresh)
+            ivs = _leaf_parts(x)[0][0][4]
+            ch = list(_leaf_parts(x)[0]) + [cfv(z, ivs)]
+            rng.shuffle(ch)
+            big = ["P", ch, []] if x[0] == "P" else ["PP", x[1], ch, []]
+            return ["sum", [plain(z)], big]
+    return present_shuffle(rng, x)
+
+
+def _split(rng, xs):
+    a, b = [], []
+    for x in xs:
+        (a if rng.random() < 0.5 else b).append(x)
+    return a, b
+
+
+def present_ratio(rng: random.Random, num, den, depth, pool, n_names, p_disguise=0.3):
+    """an expression denoting prod(num)/prod(den) whose canonicalisation cross-multiplies (through `/` on fractions)
+    to the factor multisets (num, den) exactly - no cancellation happens in canonicalize except x/x and x/1"""
+    num, den = list(num), list(den)
+    rng.shuffle(num)
+    rng.shuffle(den)
+
+    def side(fs):
+        fs = [disguise(rng, f, pool, n_names, p_disguise) for f in fs]
+        return mk_prod(_nest(rng, fs))
+
+    if depth <= 0 or len(num) + len(den) <= 1 or rng.random() < 0.2:
+        if not den and rng.random() < 0.5:
+            return side(num)
+        return ["frac", side(num), side(den)]
+    n1, n2 = _split(rng, num)
+    d1, d2 = _split(rng, den)
+    top = present_ratio(rng, n1, d1, depth - 1, pool, n_names, p_disguise)
+    bot = present_ratio(rng, d2, n2, depth - 1, pool, n_names, p_disguise)
+    if bot == "zero":
+        bot = "one"
+    return ["frac", top, bot]
+
+
+RATIO_TARGETS = ("xx", "xx", "xx", "x1", "1x", "shared", "repeat", "general")
+
+
+def _ratio_parts(rng: random.Random, n_names=4, flavour=None, target=None):
+    flavour = flavour or rng.choice(["mixed", "mixed", "samefirst", "worlds"])
+    target = target or rng.choice(RATIO_TARGETS)
+    pool = factor_catalogue(rng, n_names, flavour)[: rng.choice([2, 3, 3, 4])]
+    pick = lambda k: [rng.choice(pool) for _ in range(k)]  # noqa: E731
+    if target == "xx":
+        num = pick(rng.choice([1, 2, 2, 3, 4]))
+        den = list(num)
+    elif target == "x1":
+        num, den = pick(rng.choice([1, 2, 3])), []
+    elif target == "1x":
+        num, den = [], pick(rng.choice([1, 2, 3]))
+    elif target == "shared":
+        sh = pick(rng.choice([1, 2]))
+        num, den = sh + pick(rng.choice([0, 1, 2])), sh + pick(rng.choice([0, 1, 2]))
+    elif target == "repeat":
+        x = rng.choice(pool)
+        num = [x] * rng.choice([1, 2, 3]) + pick(rng.choice([0, 1]))
+        den = [x] * rng.choice([0, 1, 2]) + pick(rng.choice([0, 1, 2]))
+    else:
+        num, den = pick(rng.choice([1, 2, 3])), pick(rng.choice([1, 2, 3]))
+    return pool, num, den, f"ratio:{target}:{flavour}"
+
+
+def struct_ratio(rng: random.Random, n_names=4, flavour=None, target=None):
+    """(expression, label): a compound fraction over a common pool of factors.
+    target xx: numerator and denominator multisets equal (collapses to One, directly or only after the division);
+    x1 / 1x: the denominator / numerator multiset is empty; shared: common factors that canonicalize must NOT cancel;
+    repeat: a factor occurs several times; general: independent multisets"""
+    pool, num, den, label = _ratio_parts(rng, n_names, flavour, target)
+    e = present_ratio(rng, num, den, rng.choice([1, 1, 2, 2, 3]), pool, n_names)
+    return e, label
+
+
+def struct_ratio_pair(rng: random.Random, n_names=4):
+    """(a, b, label): two independent presentations of the same ratio of factor multisets (semantically equal; usually
+    canonically equal as well)"""
+    pool, num, den, label = _ratio_parts(rng, n_names)
+    a = present_ratio(rng, num, den, rng.choice([0, 1, 2]), pool, n_names)
+    b = present_ratio(rng, num, den, rng.choice([0, 1, 2]), pool, n_names)
+    return a, b, label
+
+
+def struct_product(rng: random.Random, n_names=4, flavour=None):
+    """(expression, label): products whose factors tie on the first child name, contain One-like factors, and factors that
+    become products only after canonicalisation ((x*y)/1, Sum over a one-like ...)"""
+    flavour = flavour or rng.choice(["samefirst", "samefirst", "mixed", "worlds"])
+    pool = factor_catalogue(rng, n_names, flavour)[: rng.choice([3, 4, 5, 6])]
+    fs = []
+    for _ in range(rng.choice([2, 3, 3, 4, 5])):
+        k = rng.random()
+        if k < 0.55:
+            fs.append(disguise(rng, rng.choice(pool), pool, n_names, 0.3))
+        elif k < 0.8:      # a product hidden in a fraction over a one-like denominator
+            inner = [disguise(rng, rng.choice(pool), pool, n_names, 0.2) for _ in range(rng.choice([2, 2, 3]))]
+            fs.append(["frac", ["prod"] + inner, one_like(rng, pool, n_names)])
+        elif k < 0.9:
+            fs.append(one_like(rng, pool, n_names))
+        else:
+            fs.append(["frac", rng.choice(pool), rng.choice(pool)])
+    if len(fs) < 2:
+        fs.append(rng.choice(pool))
+    e = ["prod"] + _nest(rng, fs)
+    w = rng.random()
+    if w < 0.15:
+        e = ["sum", [plain(rng.randrange(n_names))], e]
+    elif w < 0.3:
+        e = ["frac", e, rng.choice(pool)]
+    return e, f"product:{flavour}"
+
+
+SUM_MODES = ("equal", "superset", "subset", "partial", "miss")
+
+
+def struct_sum_leaf(rng: random.Random, n_names=4, mode=None, pop=None, wrap=None):
+    """(expression, label): Sum over a parent-less joint leaf (plain / interventional / population-tagged / starred) with
+    the given relation between ranges and children; optionally the leaf only appears after canonicalising the summand,
+    optionally wrapped in a product / fraction / outer sum"""
+    mode = mode or rng.choice(SUM_MODES)
+    names = list(range(n_names))
+    rng.shuffle(names)
+    k = rng.choice([1, 2, 2, 3]) if n_names >= 4 else rng.choice([1, 2])
+    if mode in ("subset", "partial"):
+        k = max(k, 2)
+    k = min(k, n_names - 1)
+    ch, others = names[:k], names[k:]
+    ivs = []
+    if len(others) >= 2 and rng.random() < 0.3:
+        ivs = [[others.pop(), rng.choice(["m", "m", "p"])]]
+    if pop is None:
+        pop = rng.choice([None, POPS[0], POPS[1]])
+    elif pop is False:
+        pop = None
+    children = [cfv(n, ivs, "m" if rng.random() < 0.1 else "n") for n in ch]
+    rng.shuffle(children)
+    leaf = mk_leaf(children, pop=pop)
+    if mode == "equal":
+        r = list(ch)
+    elif mode == "superset":
+        r = list(ch) + rng.sample(others, rng.randint(1, min(2, len(others))))
+    elif mode == "subset":
+        r = rng.sample(ch, rng.randint(1, len(ch) - 1))
+    elif mode == "partial":
+        r = rng.sample(ch, rng.randint(1, len(ch) - 1)) + rng.sample(others, rng.randint(1, min(2, len(others))))
+    else:
+        r = rng.sample(others, rng.randint(1, min(2, len(others))))
+    body = leaf
+    h = rng.random()
+    if h < 0.15:
+        body = ["frac", leaf, "one"]
+    elif h < 0.3:
+        body = ["prod", "one", leaf]
+    elif h < 0.4 and others:      # the leaf itself is the result of an inner marginalisation
+        z = [n for n in others if n not in r]
+        if z:
+            big = list(children) + [cfv(z[0], ivs)]
+            rng.shuffle(big)
+            body = ["sum", [plain(z[0])], mk_leaf(big, pop=pop)]
+    e = ["sum", [plain(n) for n in sorted(set(r))], body]
+    wrap = wrap or rng.choice(["none", "none", "prod", "num", "den", "sum", "both"])
+    other = mk_leaf([names[-1]], pop=rng.choice([None, pop]))
+    if wrap == "prod":
+        e = ["prod", other, e]
+    elif wrap == "num":
+        e = ["frac", e, other]
+    elif wrap == "den" and mode != "equal":
+        e = ["frac", other, e]
+    elif wrap == "sum":
+        e = ["sum", [plain(rng.choice(names))], ["prod", e, other]]
+    elif wrap == "both":
+        e2, _ = struct_sum_leaf(rng, n_names, wrap="none")
+        e = ["frac", e, e2]
+    return e, f"sumleaf:{mode}:{'PP' if pop else 'P'}"
+
+
+def struct_expr(rng: random.Random, n_names=4):
+    """one structured expression with its label"""
+    k = rng.random()
+    if k < 0.5:
+        return struct_ratio(rng, n_names)
+    if k < 0.75:
+        return struct_product(rng, n_names)
+    return struct_sum_leaf(rng, n_names)
+
+
+# --------------------------------------------------------------------------------------------- feature detection
+
+def features(enc, ordering=None, limit=40):
+    """Which comparison branches of the REAL canonicaliser does `enc` reach?  Walks the raw expression, canonicalises
+    the sub-terms with the real code and reports a set of feature names (used as generator-distribution tags):
+
+      frac:den_one / frac:equal_direct     the first checks of the Fraction branch fire
+      frac:cross_xx / cross_x1 / cross_1x  numerator and denominator differ as objects, at least one is a Fraction, and
+                                           the division cross-multiplies into x/x, x/One, One/x
+      frac:cross_other / frac:plain        compound / simple fraction that stays
+      frac:shared_factor                   canonical numerator and denominator have a factor in common (must not cancel)
+      prod:nested_raw                      a product directly inside a product
+      prod:nested_after_canon              a non-product factor whose canonical form is a product
+      prod:first_child_tie                 two canonical factors with the same class rank and first child name
+      prod:repeated_factor                 two equal canonical factors
+      prod:one_factor / prod:zero_factor   a factor canonicalising to One / Zero
+      leaf:shared_name                     a leaf with two variables of the same name (several worlds / stars)
+      sum:<mode>:<P|PP>[:iv]               Sum whose canonical summand is a parent-less leaf: relation ranges/children
+      sum:of_one                           the summand canonicalises to One
+    """
+    from y0.dsl import Fraction, One, PopulationProbability, Probability, Product, Sum, Zero
+    from y0.mutate.canonicalize_expr import Canonicalizer
+
+    from . import enc_expr as X
+    from y0.dsl import ensure_ordering
+
+    out = set()
+    try:
+        e = X.dec_expr(enc)
+        o = ensure_ordering(e, ordering=None if ordering is None else [X.dec_var(v) for v in ordering])
+        cz = Canonicalizer(o)
+    except Exception:
+        return out
+    budget = [limit]
+
+    def canon(x):
+        try:
+            return cz.canonicalize(x)
+        except Exception:
+            return None
+
+    def first_key(c):
+        if isinstance(c, Probability):
+            return ("P", c.children[0].name)
+        if isinstance(c, Sum):
+            k = first_key(c.expression)
+            return None if k is None else ("S",) + k
+        return None
+
+    def factors(c):
+        return list(c.expressions) if isinstance(c, Product) else [c]
+
+    def walk(x):
+        if budget[0] <= 0:
+            return
+        budget[0] -= 1
+        if isinstance(x, Probability):
+            names = [v.name for v in x.children + x.parents]
+            if len(set(names)) < len(names):
+                out.add("leaf:shared_name")
+        elif isinstance(x, Product):
+            cs = []
+            for f in x.expressions:
+                walk(f)
+                if isinstance(f, Product):
+                    out.add("prod:nested_raw")
+                    continue
+                c = canon(f)
+                if c is None:
+                    continue
+                if isinstance(c, Product):
+                    out.add("prod:nested_after_canon")
+                if isinstance(c, One):
+                    out.add("prod:one_factor")
+                if isinstance(c, Zero):
+                    out.add("prod:zero_factor")
+            c = canon(x)
+            if isinstance(c, Product):
+                cs = list(c.expressions)
+                keys = [first_key(f) for f in cs]
+                keys = [k for k in keys if k is not None]
+                if len(set(keys)) < len(keys):
+                    out.add("prod:first_child_tie")
+                if any(cs[i] == cs[j] for i in range(len(cs)) for j in range(i)):
+                    out.add("prod:repeated_factor")
+        elif isinstance(x, Sum):
+            walk(x.expression)
+            c = canon(x.expression)
+            if isinstance(c, One):
+                out.add("sum:of_one")
+            if isinstance(c, Probability) and not c.parents:
+                ch = {v.get_base() for v in c.children}
+                r = set(x.ranges)
+                mode = ("equal" if r == ch else "superset" if r > ch else "subset" if r < ch else
+                        "partial" if r & ch else "miss")
+                tag = f"sum:{mode}:{'PP' if isinstance(c, PopulationProbability) else 'P'}"
+                out.add(tag)
+                if any(getattr(v, "interventions", None) for v in c.children):
+                    out.add(tag + ":iv")
+        elif isinstance(x, Fraction):
+            walk(x.numerator)
+            walk(x.denominator)
+            n, d = canon(x.numerator), canon(x.denominator)
+            if n is None or d is None:
+                return
+            if isinstance(d, One):
+                out.add("frac:den_one")
+            elif n == d:
+                out.add("frac:equal_direct")
+            else:
+                try:
+                    rv = n / d
+                except Exception:
+                    return
+                compound = isinstance(n, Fraction) or isinstance(d, Fraction)
+                if isinstance(rv, Fraction) and compound and isinstance(rv.denominator, One):
+                    out.add("frac:cross_x1")
+                elif isinstance(rv, Fraction) and compound and rv.numerator == rv.denominator:
+                    out.add("frac:cross_xx")
+                elif isinstance(rv, Fraction) and compound and isinstance(rv.numerator, One):
+                    out.add("frac:cross_1x")
+                elif compound:
+                    out.add("frac:cross_other")
+                else:
+                    out.add("frac:plain")
+                if isinstance(rv, Fraction):
+                    fn, fd = factors(rv.numerator), factors(rv.denominator)
+                    if any(a == b for a in fn for b in fd) and rv.numerator != rv.denominator:
+                        out.add("frac:shared_factor")
+
+    walk(e)
+    return out
